@@ -1,5 +1,6 @@
 SPECIFICATION Spec
 CONSTANTS
+  TxKinds = {"v3", "v2"}
   Keys = {"k1", "k2"}
   Msgs = {"this", "other"}
   VForms = {"ok", "flip", "hi", "comp", "bad"}
